@@ -1,5 +1,6 @@
 import TxdbusModel.Proofs.Auth.ServerClose
 import TxdbusModel.Proofs.Auth.ServerConform
+import TxdbusModel.Proofs.Auth.ServerRealSafe
 /-!
 # C06 - the bus authenticates a peer only after a mechanism accepted it
 
@@ -31,6 +32,9 @@ theorem table_states : stateNames = ["WaitingForAuth", "WaitingForBegin", "Waiti
 theorem table_words :
     wRejected = lit "REJECTED " ∧ wOk = lit "OK " ∧ wData = lit "DATA " ∧ wError = lit "ERROR" ∧
     wErrorSp = lit "ERROR " ∧ wUnknown = lit "\"Unknown command\"" := by decide
+
+/-- cookie expiry (seconds) and the sizes of the two `os.urandom` calls -/
+theorem table_cookie : cookieExpiry = 30 ∧ cookieRandomBytes = 24 ∧ challengeRandomBytes = 8 := by decide
 
 variable {W I : Type} (S : MechSys W I)
 
@@ -70,7 +74,61 @@ theorem refines_spec_server (guid : Bytes) (w : W) (reads : List Bytes) :
     (p.authenticated = true → (specRun S.offered maxRejects guid p.log).st.phase = .authenticated) := by
   intro p
   have h := runReads_inv S guid _ reads (inv_init S guid w)
-  exact ⟨h.2.2.1, h.2.2.2, fun a b c => (h.1 a b c).2.2.2.2.1, fun a => (h.2.1 a).2.1⟩
+  exact ⟨h.2.2.1, h.2.2.2.1, fun a b c => (h.1 a b c).2.2.2.2.1, fun a => (h.2.1 a).2.1⟩
+
+/-- The connection is authenticated exactly when the specification's table, run over the handled lines, is in
+its `authenticated` phase: whenever the table says "accept + BEGIN", `connectionAuthenticated()` ran (liveness),
+and never otherwise (safety). -/
+theorem authenticated_iff_spec (guid : Bytes) (w : W) (reads : List Bytes) :
+    (runReads S (Proto.init guid w) reads).authenticated = true ↔
+      (specRun S.offered maxRejects guid (runReads S (Proto.init guid w) reads).log).st.phase = .authenticated := by
+  have h := runReads_inv S guid _ reads (inv_init S guid w)
+  constructor
+  · exact fun a => (h.2.1 a).2.1
+  · intro hp
+    cases ha : (runReads S (Proto.init guid w) reads).authenticated with
+    | true => rfl
+    | false => exact absurd hp (h.2.2.2.2 ha)
+
+/-- A mechanism step happens on a line exactly when the table consults the mechanism there: AUTH of an offered
+mechanism with a usable response in WaitingForAuth, DATA with a usable response in WaitingForData (so "answered by
+the mechanism's verdict" is not vacuous: a model that never stepped the mechanism would fail this). -/
+theorem mechanism_consulted_iff_table_asks (s : Server W I) (line : Bytes) (hinv : Inv2 s)
+    (hu : utf8Valid (splitCmd line).1 = true) :
+    (handle S s line).mech.isSome = asksMech S.offered s.state (Spec.parse line) :=
+  mechanism_consulted_iff S s line hinv hu
+
+/-! ## 2b. no exception escapes -/
+
+/-- The real mechanisms never raise: over `real`, for every environment and every list of non-empty reads, if an
+exception escaped `dataReceived` then one of the handled lines has a command word that is not valid UTF-8 (the
+stated assumption).  In particular `cancel()` after any history and `getUserName()` at BEGIN cannot raise
+(repairs C06-04, C06-05; undoing either in `Auth/Mechs.lean` breaks `real_safe`). -/
+theorem real_mechanisms_never_raise (guid : Bytes) (w : RealWorld) (reads : List Bytes)
+    (hall : ∀ r ∈ reads, r ≠ [])
+    (hc : (runReads real (Proto.init guid w) reads).crashed = true) :
+    ∃ e ∈ (runReads real (Proto.init guid w) reads).log, utf8Valid (splitCmd e.line).1 = false :=
+  (runReads_nc real real_safe guid _ reads hall (inv_init real guid w) (nc_init guid w)).2 hc
+
+/-- The same for the scripted mechanisms (every outcome script). -/
+theorem scripted_never_raise (offered : List Bytes) (guid : Bytes) (w : ScriptWorld) (reads : List Bytes)
+    (hall : ∀ r ∈ reads, r ≠ [])
+    (hc : (runReads (scripted offered) (Proto.init guid w) reads).crashed = true) :
+    ∃ e ∈ (runReads (scripted offered) (Proto.init guid w) reads).log, utf8Valid (splitCmd e.line).1 = false :=
+  (runReads_nc (scripted offered) (scripted_safe offered) guid _ reads hall
+    (inv_init (scripted offered) guid w) (nc_init guid w)).2 hc
+
+/-- One line, any mechanism system that keeps its `cancel()` / `getUserName()` from raising (`MechSafe`). -/
+theorem line_never_raises {Fresh : I → Prop} {G : W → I → Prop} (hs : MechSafe S Fresh G) (s : Server W I)
+    (line : Bytes) (hg : CurGood G s) (hinv : Inv2 s) (hu : utf8Valid (splitCmd line).1 = true) :
+    (handle S s line).res ≠ .crash :=
+  (handle_no_crash S hs s line hg hinv hu).1
+
+/-- Witness: before repair C06-04 `cancel()` raised after a rejected cookie response. -/
+theorem prefix_double_delete_witness :
+    (real.cancel (cookieStepTwoPre w0 c0 []).1 (.cookie (cookieStepTwoPre w0 c0 []).2.1)).isNone = true ∧
+    (real.cancel (cookieStepTwo w0 c0 []).1 (.cookie (cookieStepTwo w0 c0 []).2.1)).isSome = true :=
+  prefix_cookie_double_delete_raises
 
 /-! ## 3. closing -/
 
@@ -146,14 +204,14 @@ theorem conforming_client_accepted (guid : Bytes) (w : RealWorld) :
         (runReads real (Proto.init guid w) reads).authenticated = true ∧
         (runReads real (Proto.init guid w) reads).closed = false ∧
         (runReads real (Proto.init guid w) reads).guid = some e.name) ∧
-    (∀ (user cc : Bytes) (e : PwEnt),
-      user ≠ [] → isAscii user = true → parseInt user = none → user.length ≤ 8000 →
+    (∀ (arg user cc : Bytes) (e : PwEnt),
+      arg ≠ [] → isAscii arg = true → resolveUser w.cfg arg = some user → arg.length ≤ 8000 →
       getpwnam w.cfg user = some e → lookupDir w e.home ≠ .bad →
       cc ≠ [] → NoSpace cc → isAscii cc = true → cc.length ≤ 8000 →
       (∀ x, (w.cfg.sha1 x).length = 20) →
       ∃ chal cookie : Bytes, ∀ reads : List Bytes, (∀ r ∈ reads, r ≠ []) →
         reads.flatten =
-          0 :: encodeLines [cookieAuthLine user, cookieDataLine w.cfg.sha1 chal cc cookie, lit "BEGIN"] →
+          0 :: encodeLines [cookieAuthLine arg, cookieDataLine w.cfg.sha1 chal cc cookie, lit "BEGIN"] →
         (runReads real (Proto.init guid w) reads).authenticated = true ∧
         (runReads real (Proto.init guid w) reads).closed = false ∧
         (runReads real (Proto.init guid w) reads).guid = some user) := by
@@ -163,32 +221,81 @@ theorem conforming_client_accepted (guid : Bytes) (w : RealWorld) :
     exact ⟨this.1, this.2.1⟩
   · intro uid e hc hu reads hall hflat
     exact external_accepted guid w uid e hc hu reads hall hflat
-  · intro user cc e h1 h2 h3 h4 h5 h6 h7 h8 h9 h10 h11
-    exact cookie_accepted guid w user cc e h1 h2 h3 h4 h5 h6 h7 h8 h9 h10 h11
+  · intro arg user cc e h1 h2 h3 h4 h5 h6 h7 h8 h9 h10 h11
+    exact cookie_accepted guid w arg user cc e h1 h2 h3 h4 h5 h6 h7 h8 h9 h10 h11
 
 /-- The line-level form with what the client reads: after `AUTH DBUS_COOKIE_SHA1 <hex user>` the DATA reply
 carries `<context> <id> <challenge>` and the user's keyring file ends with the entry `(id, now, cookie)`;
 answering with that challenge and cookie gives OK, and BEGIN authenticates as `user`. -/
-theorem cookie_conversation (s : Server RealWorld Inst) (user cc : Bytes) (e : PwEnt)
+theorem cookie_conversation (s : Server RealWorld Inst) (arg user cc : Bytes) (e : PwEnt)
     (hs : s.state = .waitingForAuth)
-    (hu0 : user ≠ []) (hua : isAscii user = true) (hup : parseInt user = none)
+    (hu0 : arg ≠ []) (hua : isAscii arg = true) (hup : resolveUser s.world.cfg arg = some user)
     (hun : getpwnam s.world.cfg user = some e) (hud : lookupDir s.world e.home ≠ .bad)
     (hcc : cc ≠ []) (hncc : NoSpace cc) (hcca : isAscii cc = true)
     (hsha : ∀ x, s.world.cfg.sha1 x ≠ []) :
     ∃ (c1 : CookieSt) (cid : Nat),
-      (handle real s (cookieAuthLine user)).sent =
+      (handle real s (cookieAuthLine arg)).sent =
         [wData ++ hexlify (s.world.cfg.ctx ++ 32 :: natToDec cid ++ 32 :: c1.challenge)] ∧
-      (∃ old, lookupFile (handle real s (cookieAuthLine user)).srv.world e.home =
+      (∃ old, lookupFile (handle real s (cookieAuthLine arg)).srv.world e.home =
         some (old ++ [⟨cid, s.world.cfg.now, c1.cookie⟩])) ∧
-      (handle real (handle real s (cookieAuthLine user)).srv
+      (handle real (handle real s (cookieAuthLine arg)).srv
         (cookieDataLine s.world.cfg.sha1 c1.challenge cc c1.cookie)).sent = [wOk ++ s.serverGuid] ∧
-      (handle real (handle real (handle real s (cookieAuthLine user)).srv
+      (handle real (handle real (handle real s (cookieAuthLine arg)).srv
         (cookieDataLine s.world.cfg.sha1 c1.challenge cc c1.cookie)).srv (lit "BEGIN")).srv.authenticated = true ∧
-      (handle real (handle real (handle real s (cookieAuthLine user)).srv
+      (handle real (handle real (handle real s (cookieAuthLine arg)).srv
         (cookieDataLine s.world.cfg.sha1 c1.challenge cc c1.cookie)).srv (lit "BEGIN")).srv.guid = some user := by
   obtain ⟨c1, cid, _, _, a3, a4, _, a6, _, _, a9, a10⟩ :=
-    cookie_lines s user cc e hs hu0 hua hup hun hud hcc hncc hcca hsha
+    cookie_lines s arg user cc e hs hu0 hua hup hun hud hcc hncc hcca hsha
   exact ⟨c1, cid, a3, a4, a6, a9, a10⟩
+
+/-- The forms real clients use, from every open state at a line boundary that waits for AUTH (fresh after the
+NUL byte, or after earlier rejected attempts below the limit), under every splitting:
+ANONYMOUS with or without an initial response (txdbus's own client sends the trace `AUTH ANONYMOUS 747864627573`);
+EXTERNAL with or without a claimed identity (`AUTH EXTERNAL 31303030`) then DATA; each followed by any number of
+NEGOTIATE_UNIX_FD (answered ERROR) and BEGIN; DBUS_COOKIE_SHA1 with the user given by name or by uid. -/
+theorem conforming_client_accepted_from (p : Proto RealWorld Inst) (hp : ReadyForAuth p) :
+    (∀ (resp : Option Bytes) (k : Nat), GoodResp resp → (∀ t, resp = some t → t.length ≤ 8000) →
+      ∀ reads : List Bytes, (∀ r ∈ reads, r ≠ []) →
+        reads.flatten = encodeLines (authLineOf (lit "ANONYMOUS") resp :: tailLines k) →
+        (runReads real p reads).authenticated = true ∧ (runReads real p reads).closed = false ∧
+        (runReads real p reads).guid = some anonymousUser) ∧
+    (∀ (uid : Int) (e : PwEnt) (resp : Option Bytes) (k : Nat),
+      p.srv.world.cfg.creds = some uid → getpwuidI p.srv.world.cfg uid = some e →
+      GoodResp resp → (∀ t, resp = some t → t.length ≤ 8000) →
+      ∀ reads : List Bytes, (∀ r ∈ reads, r ≠ []) →
+        reads.flatten = encodeLines (authLineOf (lit "EXTERNAL") resp :: lit "DATA" :: tailLines k) →
+        (runReads real p reads).authenticated = true ∧ (runReads real p reads).closed = false ∧
+        (runReads real p reads).guid = some e.name) ∧
+    (∀ (arg user cc : Bytes) (e : PwEnt),
+      arg ≠ [] → isAscii arg = true → resolveUser p.srv.world.cfg arg = some user → arg.length ≤ 8000 →
+      getpwnam p.srv.world.cfg user = some e → lookupDir p.srv.world e.home ≠ .bad →
+      cc ≠ [] → NoSpace cc → isAscii cc = true → cc.length ≤ 8000 →
+      (∀ x, (p.srv.world.cfg.sha1 x).length = 20) →
+      ∃ chal cookie : Bytes, ∀ reads : List Bytes, (∀ r ∈ reads, r ≠ []) →
+        reads.flatten =
+          encodeLines [cookieAuthLine arg, cookieDataLine p.srv.world.cfg.sha1 chal cc cookie, lit "BEGIN"] →
+        (runReads real p reads).authenticated = true ∧ (runReads real p reads).closed = false ∧
+        (runReads real p reads).guid = some user) := by
+  refine ⟨?_, ?_, ?_⟩
+  · intro resp k hr hrl reads hall hflat
+    exact anonymous_accepted_from p hp resp hr hrl k reads hall hflat
+  · intro uid e resp k hc hu hr hrl reads hall hflat
+    exact external_accepted_from p hp uid e hc hu resp hr hrl k reads hall hflat
+  · intro arg user cc e h1 h2 h3 h4 h5 h6 h7 h8 h9 h10 h11
+    exact cookie_accepted_from p hp arg user cc e h1 h2 h3 h4 h5 h6 h7 h8 h9 h10 h11
+
+/-- The accepted hash is over the challenge that was sent and the cookie that is in the file: if a fresh
+DBUS_COOKIE_SHA1 instance answers a challenge `msg` and then accepts, `msg = <context> <id> <chal>`, the keyring file
+ends with `(id, now, cookie)` right after the first step, and the response was `<cc> <hexlify(sha1(chal:cc:cookie))>`. -/
+theorem cookie_accept_tied_to_challenge (w : RealWorld) (a1 a2 : Option Bytes) (msg : Bytes)
+    (h1 : (cookieStep w CookieSt.init a1).2.2 = .challenge msg)
+    (h2 : (cookieStep (cookieStep w CookieSt.init a1).1 (cookieStep w CookieSt.init a1).2.1 a2).2.2 = .accept) :
+    ∃ (id : Nat) (chal cookie cc resp : Bytes),
+      msg = w.cfg.ctx ++ 32 :: natToDec id ++ 32 :: chal ∧
+      (∃ old, lookupFile (cookieStep w CookieSt.init a1).1 (cookieStep w CookieSt.init a1).2.1.home =
+        some (old ++ [⟨id, w.cfg.now, cookie⟩])) ∧
+      a2 = some resp ∧ splitWs resp = [cc, cookieHash w.cfg.sha1 chal cc cookie] :=
+  cookie_exchange_tied w a1 a2 msg h1 h2
 
 /-- DBUS_COOKIE_SHA1 returns accept only on its second step and only for a response `<cc> <hash>` with
 `hash = hexlify(sha1(server_challenge:cc:cookie))`: a wrong cookie response is never accepted. -/
@@ -256,6 +363,14 @@ example : parseInt (lit "alice") = none ∧ isAscii (lit "alice") = true ∧ NoS
   refine ⟨by decide, by decide, ?_⟩
   unfold NoSpace; decide
 
+/-- `ReadyForAuth` is satisfiable: a fresh connection after its NUL byte -/
+example (w : RealWorld) : ReadyForAuth (Proto.init g w : Proto RealWorld Inst).dropFirst :=
+  ⟨rfl, rfl, rfl, rfl, rfl, rfl, rfl⟩
+
+/-- a user given by uid resolves through passwd (hypothesis `resolveUser ... = some user`) -/
+example : resolveUser ⟨none, [⟨lit "alice", 1000, 1001, lit "/home/alice"⟩], 0, false, fun _ _ => [], fun _ => [], []⟩
+    (lit "1000") = some (lit "alice") := by decide
+
 end examples
 
 end Txdbus.C06
@@ -271,6 +386,14 @@ end Txdbus.C06
 #print axioms Txdbus.C06.cookie_conversation
 #print axioms Txdbus.C06.wrong_cookie_never_accepted
 #print axioms Txdbus.C06.line_partition_independent
+#print axioms Txdbus.C06.authenticated_iff_spec
+#print axioms Txdbus.C06.mechanism_consulted_iff_table_asks
+#print axioms Txdbus.C06.real_mechanisms_never_raise
+#print axioms Txdbus.C06.scripted_never_raise
+#print axioms Txdbus.C06.line_never_raises
+#print axioms Txdbus.C06.prefix_double_delete_witness
+#print axioms Txdbus.C06.conforming_client_accepted_from
+#print axioms Txdbus.C06.cookie_accept_tied_to_challenge
 #print axioms Txdbus.C06.table_maxAuthLength
 #print axioms Txdbus.C06.table_maxRejects
 #print axioms Txdbus.C06.table_delimiter
@@ -280,3 +403,4 @@ end Txdbus.C06
 #print axioms Txdbus.C06.table_commands
 #print axioms Txdbus.C06.table_states
 #print axioms Txdbus.C06.table_words
+#print axioms Txdbus.C06.table_cookie
